@@ -42,7 +42,7 @@ deriving Repr, Inhabited
 
 inductive Err where
   | initError | noSuchParent | rejected | parallelFinalize | concurrentTransaction
-  | noSuchStorage | emptyPerspective | bug
+  | noSuchStorage | emptyPerspective | storageExists | bug
   /-- inputs the Rust types cannot express or the harness never builds (a merge of a command
   with itself; an action whose published commands are not chained on the head; an id of a
   freshly created command that already exists) -/
@@ -331,6 +331,33 @@ def action (store : Option Store) (sink : List SinkEv) (ms pubs : List Cmd) :
             (some { graph := g1 ++ new, heads := [c.cmd.id], stamp := st.stamp + 1, facts := s' },
               sink ++ [SinkEv.begin] ++ evs ++ [SinkEv.commit], .ok ())
 
+/-- `ClientState::new_graph` for the graph `gid`: the policy's action publishes the init command
+(parentless, its id is the graph id by definition) and possibly more commands chained on it, all
+evaluated on one fresh perspective; a rejection rolls the sink back and creates nothing; otherwise
+the sink is committed and `new_storage` stores the whole perspective as the graph whose id is the id
+of its FIRST command — it fails for an empty perspective and for a graph that already exists. -/
+def newGraph (gid : Nat) (store : Option Store) (sink : List SinkEv) (pubs : List Cmd) :
+    Option Store × List SinkEv × Except Err Unit :=
+  match pubs with
+  | [] => (store, sink ++ [SinkEv.begin, SinkEv.commit], .error .emptyPerspective)
+  | c0 :: rest =>
+    if c0.parents ≠ [] ∨ c0.id ≠ gid then (store, sink, .error .malformed)
+    else if (rule c0 {}).2.1 then
+      match publish [] rest c0.id (rule c0 {}).1 [⟨c0, (rule c0 {}).1⟩] (consumes c0.id (rule c0 {}).2.2) with
+      | (_, .error .malformed) => (store, sink, .error .malformed)
+      | (evs, .error e) => (store, sink ++ [SinkEv.begin] ++ evs ++ [SinkEv.rollback], .error e)
+      | (evs, .ok (new, s')) =>
+        match store with
+        | some st => (some st, sink ++ [SinkEv.begin] ++ evs ++ [SinkEv.commit], .error .storageExists)
+        | none =>
+          match new.getLast? with
+          | none => (none, sink ++ [SinkEv.begin] ++ evs ++ [SinkEv.commit], .error .bug)
+          | some l =>
+            (some { graph := new, heads := [l.cmd.id], stamp := 0, facts := s' },
+              sink ++ [SinkEv.begin] ++ evs ++ [SinkEv.commit], .ok ())
+    else
+      (store, sink ++ [SinkEv.begin] ++ consumes c0.id (rule c0 {}).2.2 ++ [SinkEv.rollback], .error .rejected)
+
 /-! ## The client as a labelled transition system (C08) -/
 
 inductive Op where
@@ -340,6 +367,7 @@ inductive Op where
   | flush (slot : Nat)
   | commit (slot : Nat)
   | action (ms pubs : List Cmd)
+  | newGraph (pubs : List Cmd)
 deriving Repr, Inhabited
 
 inductive Res where
@@ -386,6 +414,12 @@ def step (cl : Client) : Op → Client × Res
         | .error e => .err e)
   | .action ms pubs =>
     let r := action cl.store cl.sink ms pubs
+    ({ cl with store := r.1, sink := r.2.1 },
+      match r.2.2 with
+      | .ok _ => .done
+      | .error e => .err e)
+  | .newGraph pubs =>
+    let r := newGraph cl.gid cl.store cl.sink pubs
     ({ cl with store := r.1, sink := r.2.1 },
       match r.2.2 with
       | .ok _ => .done
